@@ -10,8 +10,8 @@ package main
 
 import (
 	"go/ast"
-	"strings"
 	"go/types"
+	"strings"
 )
 
 // exactPrinters: the module functions that print a constant.Value exactly (they call ExactString and treat the
